@@ -23,6 +23,8 @@ import (
 
 var repo = flag.String("repo", "/repo", "repository root")
 var outDir = flag.String("out", "", "output directory for the .lean files")
+var anchorsFlag = flag.String("anchors", "", "anchors.json (declarations to fingerprint)")
+var resolveFlag = flag.Bool("resolve", false, "print the declarations overlapping the file:line-range arguments and exit")
 
 type guardSpec struct {
 	pkgDir   string            // directory under internal/
@@ -318,6 +320,13 @@ func renderEvents(evs []event) string {
 
 func main() {
 	flag.Parse()
+	if *resolveFlag {
+		resolveAnchors(*repo, flag.Args())
+		return
+	}
+	if *anchorsFlag != "" {
+		anchorsPath = *anchorsFlag
+	}
 	if *outDir == "" {
 		fmt.Fprintln(os.Stderr, "-out required")
 		os.Exit(2)
@@ -442,6 +451,10 @@ func main() {
 	b.WriteString("]\n\nend Extracted\n")
 	writeIfChanged(filepath.Join(*outDir, "Locks.lean"), b.String())
 	extractRest()
+	if abs, err := filepath.Abs(*outDir); err == nil {
+		*outDir = abs
+	}
+	extractFingerprints(*repo, *outDir)
 	translateAll(*repo, *outDir)
 	fmt.Printf("extracted %d lock tables\n", len(methods))
 }
